@@ -591,6 +591,20 @@ def c10_job(chk, rng, i):
         e0 = case["eofs"][0]
         case["rules"].append({"scs": e0["scs"], "bol": False, "pat": ("str", b"\x7f\x7e\x7f"),
                               "trail": None, "act": "|"})
+    def has_x(act):
+        return any(o[0] == "x" or (o[0] == "if" and has_x(o[4])) for o in act)
+    soft = (i % 5 == 1 and not include_mode and ncont >= 1 and
+            not any(has_x(e["act"]) for e in case["eofs"]))
+    if soft:
+        # an input that reports its end and then goes on (a terminal, a growing file): yywrap
+        # returns 0 with yyin unchanged; the end falls at a random place, often inside a token
+        s1 = case["wrap"][0][1]
+        case["wrap"][0] = ("soft", s1)
+        case["driver"]["atend"] = []
+        for inp in inputs:
+            s = inp["sources"][0] + inp["sources"][s1]
+            cut = rng.below(len(s) + 1)
+            inp["sources"][0], inp["sources"][s1] = s[:cut], s[cut:]
     fl = rotate(i, FLAV3)
     tb = rotate(i // 3, ["", "-Cem", "-C", "-Cfe", "-CFe", "-Ca"])
     cfg = {"flavour": fl, "flexargs": lib.tables_args(tb, 8),
@@ -601,6 +615,8 @@ def c10_job(chk, rng, i):
         feats.append("scs>40")
     if include_mode:
         feats.append("include_mode")
+    if soft:
+        feats.append("soft_end_of_input")
     return {"case": case, "configs": [cfg], "inputs": inputs, "skip_if": dangerous,
             "expect_build": std_refusals(tb), "features": feats}
 
